@@ -159,4 +159,451 @@ theorem reply_conversion_is_per_connection (c : Ctx) (v : Value) :
     downIf 2 c v = down v ∧ downIf 3 c v = v := by
   unfold downIf; simp
 
+
+/-! ## every command: the reply is a proper reply value, and RESP2 connections receive RESP2 types only -/
+
+set_option linter.unusedSectionVars false
+
+theorem allShape_map {α} (f : α → Value) (l : List α) (h : ∀ x, (f x).replyShape = true) :
+    Value.allShape (l.map f) = true := by
+  induction l with
+  | nil => rfl
+  | cons x r ih => simp only [List.map_cons, Value.allShape, h x, ih, Bool.and_self]
+
+theorem shape_bulks (l : List Bytes) : (bulks l).replyShape = true := by
+  unfold bulks
+  simp only [Value.replyShape]
+  exact allShape_map _ l (fun _ => rfl)
+
+theorem allShape_append (a b : List Value) (ha : Value.allShape a = true) (hb : Value.allShape b = true) :
+    Value.allShape (a ++ b) = true := by
+  induction a with
+  | nil => exact hb
+  | cons x r ih =>
+    simp only [Value.allShape, Bool.and_eq_true] at ha
+    simp only [List.cons_append, Value.allShape, ha.1, ih ha.2, Bool.and_self]
+
+theorem pairsShape_map {α} (f : α → Value × Value) (l : List α) (h : ∀ x, (f x).2.replyShape = true) :
+    Value.pairsShape (l.map f) = true := by
+  induction l with
+  | nil => rfl
+  | cons x r ih =>
+    simp only [List.map_cons]
+    cases hf : f x with
+    | mk k v =>
+      have := h x
+      rw [hf] at this
+      simp only [Value.pairsShape, this, ih, Bool.and_self]
+
+macro "shape" : tactic => `(tactic| (repeat' (first
+  | rfl
+  | exact shape_bulks _
+  | (simp only [Value.replyShape]; exact allShape_map _ _ (fun _ => by first | rfl | (split <;> rfl)))
+  | (simp only [Value.replyShape]; exact pairsShape_map _ _ (fun _ => rfl))
+  | dsimp only [R.ok, vOK, vInt, wrongType, optV]
+  | split)))
+
+section
+variable (c : Ctx) (db : Db) (k k2 v f m : Bytes) (i j : Int) (o : SetOpts) (b b2 : Bool)
+  (ks : List Bytes) (kvs : List (Bytes × Bytes)) (oi oj ok' : Option Int) (n : Nat)
+
+theorem setKey_reply_shape (x y : Bool) : (optV (setKey c db k v o x y).2.1).replyShape = true := by
+  unfold setKey
+  repeat' split
+  all_goals simp_all [optV, Value.replyShape, vOK]
+theorem set_shape : (cmdSet c db k v o b).reply.replyShape = true := by
+  unfold cmdSet
+  repeat' (first | rfl | exact setKey_reply_shape .. | dsimp only [R.ok, wrongType] | split)
+theorem get_shape : (cmdGet c db k).reply.replyShape = true := by unfold cmdGet; shape
+theorem getdel_shape : (cmdGetDel c db k).reply.replyShape = true := by unfold cmdGetDel; shape
+theorem getex_shape (e : Option ExpArg) : (cmdGetEx c db k e).reply.replyShape = true := by unfold cmdGetEx; shape
+theorem strlen_shape : (cmdStrlen c db k).reply.replyShape = true := by unfold cmdStrlen; shape
+theorem getrange_shape : (cmdGetRange c db k i j).reply.replyShape = true := by unfold cmdGetRange; shape
+theorem setrange_shape : (cmdSetRange c db k i v).reply.replyShape = true := by unfold cmdSetRange; shape
+theorem incrby_shape : (cmdIncrBy c db k i).reply.replyShape = true := by unfold cmdIncrBy; shape
+theorem mget_shape : (cmdMGet c db ks).reply.replyShape = true := by unfold cmdMGet; shape
+theorem mset_shape : (cmdMSet c db kvs b).reply.replyShape = true := by unfold cmdMSet; shape
+theorem incrbyfloat_shape : (cmdIncrByFloat c db k v).reply.replyShape = true := by unfold cmdIncrByFloat; shape
+theorem push_shape : (cmdPush c db k ks b b2).reply.replyShape = true := by unfold cmdPush; shape
+theorem llen_shape : (cmdLLen c db k).reply.replyShape = true := by unfold cmdLLen; shape
+theorem lindex_shape : (cmdLIndex c db k i).reply.replyShape = true := by unfold cmdLIndex; shape
+theorem lrange_shape : (cmdLRange c db k i j).reply.replyShape = true := by unfold cmdLRange; shape
+theorem lset_shape : (cmdLSet c db k i v).reply.replyShape = true := by unfold cmdLSet; shape
+theorem linsert_shape : (cmdLInsert c db k b v m).reply.replyShape = true := by unfold cmdLInsert; shape
+theorem lrem_shape : (cmdLRem c db k i v).reply.replyShape = true := by unfold cmdLRem; shape
+theorem ltrim_shape : (cmdLTrim c db k i j).reply.replyShape = true := by unfold cmdLTrim; shape
+theorem lpos_shape : (cmdLPos c db k v oi oj ok').reply.replyShape = true := by unfold cmdLPos; shape
+theorem hset_shape : (cmdHSet c db k kvs b b2).reply.replyShape = true := by unfold cmdHSet; shape
+theorem hget_shape : (cmdHGet c db k f).reply.replyShape = true := by unfold cmdHGet; shape
+theorem hmget_shape : (cmdHMGet c db k ks).reply.replyShape = true := by unfold cmdHMGet; shape
+theorem hgetall_shape : (cmdHGetAll c db k).reply.replyShape = true := by unfold cmdHGetAll; shape
+theorem hkeys_shape : (cmdHKeys c db k b).reply.replyShape = true := by unfold cmdHKeys; shape
+theorem hlen_shape : (cmdHLen c db k).reply.replyShape = true := by unfold cmdHLen; shape
+theorem hexists_shape : (cmdHExists c db k f).reply.replyShape = true := by unfold cmdHExists; shape
+theorem hstrlen_shape : (cmdHStrlen c db k f).reply.replyShape = true := by unfold cmdHStrlen; shape
+theorem hdel_shape : (cmdHDel c db k ks).reply.replyShape = true := by unfold cmdHDel; shape
+theorem hincrby_shape : (cmdHIncrBy c db k f i).reply.replyShape = true := by unfold cmdHIncrBy; shape
+theorem hincrbyfloat_shape : (cmdHIncrByFloat c db k f v).reply.replyShape = true := by unfold cmdHIncrByFloat; shape
+theorem sadd_shape : (cmdSAdd c db k ks).reply.replyShape = true := by unfold cmdSAdd; shape
+theorem srem_shape : (cmdSRem c db k ks).reply.replyShape = true := by unfold cmdSRem; shape
+theorem scard_shape : (cmdSCard c db k).reply.replyShape = true := by unfold cmdSCard; shape
+theorem sismember_shape : (cmdSIsMember c db k m).reply.replyShape = true := by unfold cmdSIsMember; shape
+theorem smismember_shape : (cmdSMIsMember c db k ks).reply.replyShape = true := by unfold cmdSMIsMember; shape
+theorem smembers_shape : (cmdSMembers c db k).reply.replyShape = true := by unfold cmdSMembers; shape
+theorem smove_shape : (cmdSMove c db k k2 m).reply.replyShape = true := by unfold cmdSMove; shape
+theorem setalgebra_shape (op : SetOp) : (cmdSetAlgebra c db op ks).reply.replyShape = true := by unfold cmdSetAlgebra; shape
+theorem setalgebrastore_shape (op : SetOp) : (cmdSetAlgebraStore c db op k ks).reply.replyShape = true := by unfold cmdSetAlgebraStore; shape
+theorem sintercard_shape : (cmdSInterCard c db i ks j).reply.replyShape = true := by unfold cmdSInterCard; shape
+theorem exists_shape : (cmdExists c db ks).reply.replyShape = true := by unfold cmdExists; shape
+theorem type_shape : (cmdType c db k).reply.replyShape = true := by unfold cmdType; shape
+theorem rename_shape : (cmdRename c db k k2 b).reply.replyShape = true := by unfold cmdRename; shape
+theorem copy_shape : (cmdCopy c db k k2 b).reply.replyShape = true := by unfold cmdCopy; shape
+theorem expireat_shape (opt : ExpireOpt) : (cmdExpireAt c db k i opt).reply.replyShape = true := by unfold cmdExpireAt; shape
+theorem persist_shape : (cmdPersist c db k).reply.replyShape = true := by unfold cmdPersist; shape
+theorem ttl_shape (kind : TtlKind) : (cmdTtl c db k kind).reply.replyShape = true := by unfold cmdTtl; shape
+theorem getbit_shape : (cmdGetBit c db k i).reply.replyShape = true := by unfold cmdGetBit; shape
+theorem bitpos_shape (st : Option Int) (en : Option (Int × Bool)) : (cmdBitPos c db k i st en).reply.replyShape = true := by unfold cmdBitPos; shape
+theorem bitop_shape : (cmdBitOp c db k k2 ks).reply.replyShape = true := by unfold cmdBitOp; shape
+theorem bfStep_shape (buf : Bytes) (p : BfParsed) : (bfStep c buf p).2.2.replyShape = true := by
+  unfold bfStep
+  extract_lets a u n nv oob m neg resolved
+  split
+  · rfl
+  · clear_value resolved
+    cases resolved <;> rfl
+theorem bfFold_shape (ps : List BfParsed) : ∀ (acc : Bytes × Bool × List Value), Value.allShape acc.2.2 = true →
+    Value.allShape (ps.foldl (fun (acc : Bytes × Bool × List Value) p =>
+      ((bfStep c acc.1 p).1, acc.2.1 || (bfStep c acc.1 p).2.1, acc.2.2 ++ [(bfStep c acc.1 p).2.2])) acc).2.2 = true := by
+  induction ps with
+  | nil => intro acc h; exact h
+  | cons p r ih =>
+    intro acc h
+    simp only [List.foldl_cons]
+    apply ih
+    exact allShape_append _ _ h (by simp only [Value.allShape, bfStep_shape, Bool.and_self])
+theorem bitfieldParsed_shape (ps : List BfParsed) : (cmdBitfieldParsed c db k ps).reply.replyShape = true := by
+  unfold cmdBitfieldParsed
+  repeat' (first | rfl | (simp only [Value.replyShape]; exact bfFold_shape c ps _ rfl) | dsimp only [R.ok, wrongType] | split)
+
+theorem append_shape : (cmdAppend c db k v).reply.replyShape = true := by unfold cmdAppend; shape
+theorem decrby_shape : (cmdDecrBy c db k i).reply.replyShape = true := by
+  unfold cmdDecrBy
+  split
+  · rfl
+  · exact incrby_shape c db k _
+theorem pop_shape : (cmdPop c db k oi b).reply.replyShape = true := by
+  have go : ∀ n multi, (cmdPop.go c db k b n multi).reply.replyShape = true := by
+    intro n multi
+    unfold cmdPop.go
+    shape
+  unfold cmdPop
+  split
+  · split
+    · rfl
+    · exact go _ _
+  · exact go _ _
+theorem del_shape : (cmdDel c db ks b).reply.replyShape = true := by unfold cmdDel; rfl
+theorem bfParse_error_shape (op : BfOp) (e : Value) (h : bfParse op = .error e) : e.replyShape = true := by
+  unfold bfParse at h
+  repeat' (first | (cases h; rfl) | (cases h; done) | split at h | dsimp only at h)
+theorem bfParseAll_error_shape (ops : List BfOp) (e : Value) (h : bfParseAll ops = .error e) : e.replyShape = true := by
+  unfold bfParseAll at h
+  dsimp only at h
+  split at h
+  · rename_i e' hf
+    cases h
+    obtain ⟨o, _, ho⟩ := List.exists_of_findSome?_eq_some hf
+    split at ho
+    · rename_i e2 hp
+      cases ho
+      exact bfParse_error_shape o _ hp
+    · cases ho
+  · cases h
+theorem bitfield_shape (ops : List BfOp) : (cmdBitfield c db k ops).reply.replyShape = true := by
+  unfold cmdBitfield
+  split
+  · rename_i e he
+    exact bfParseAll_error_shape ops e he
+  · exact bitfieldParsed_shape c db k _
+
+theorem setbit_shape : (cmdSetBit c db k i j).reply.replyShape = true := by
+  unfold cmdSetBit
+  split
+  · rfl
+  · split
+    · rfl
+    · have hb := bitfieldParsed_shape c db k [{ kind := .set, signed := false, width := 1, off := i, value := j, ov := .wrap }]
+      dsimp only
+      split
+      · rename_i x hx
+        rw [hx] at hb
+        simp only [Value.replyShape, Value.allShape, Bool.and_true] at hb
+        exact hb
+      · exact hb
+theorem bitcount_shape (r : Option (Int × Int × Bool)) : (cmdBitCount c db k r).reply.replyShape = true := by
+  unfold cmdBitCount
+  split
+  · rfl
+  · split_ifs <;> first
+      | rfl
+      | (extract_lets; split_ifs <;> rfl)
+  · rfl
+theorem lmove_shape : (cmdLMove c db k k2 b b2).reply.replyShape = true := by unfold cmdLMove; shape
+theorem lmpop_shape : (cmdLMPop c db ks b n).reply.replyShape = true := by
+  have go : ∀ ks, (cmdLMPop.go c db b n ks).reply.replyShape = true := by
+    intro ks
+    induction ks with
+    | nil => rfl
+    | cons x r ih =>
+      unfold cmdLMPop.go
+      split
+      · rfl
+      · exact ih
+      · split
+        · exact ih
+        · simp only [R.ok, Value.replyShape, Value.allShape, Bool.and_true, Bool.true_and]
+          exact shape_bulks _
+  unfold cmdLMPop
+  exact go ks
+theorem bpop_shape : (runCmd.go c b db ks).reply.replyShape = true := by
+  induction ks with
+  | nil => rfl
+  | cons x r ih =>
+    unfold runCmd.go
+    split
+    · rfl
+    · exact ih
+    · split
+      · exact ih
+      · rfl
+theorem sortFinish_shape (store : Option Bytes) (out : List Value) (hint : Match) (ho : Value.allShape out = true) :
+    (sortFinish db store out hint).reply.replyShape = true := by
+  unfold sortFinish
+  split
+  · simp only [Value.replyShape]; exact ho
+  · split <;> rfl
+theorem allShape_flatMap {α} (l : List α) (f : α → List Value) (h : ∀ x, Value.allShape (f x) = true) :
+    Value.allShape (l.flatMap f) = true := by
+  induction l with
+  | nil => rfl
+  | cons x r ih => simp only [List.flatMap_cons]; exact allShape_append _ _ (h x) ih
+theorem sortCompute_shape (xs : List Bytes) (isSet : Bool) (by_ : Option Bytes) (limit : Option (Int × Int))
+    (gets : List Bytes) (x y z : Bool) (out : List Value) (hint : Match)
+    (h : sortCompute c db xs isSet by_ limit gets x y z = some (out, hint)) : Value.allShape out = true := by
+  unfold sortCompute at h
+  extract_lets at h
+  simp only [Option.map_eq_some_iff] at h
+  obtain ⟨its, _, h⟩ := h
+  simp only [Prod.mk.injEq] at h
+  rw [← h.1]
+  apply allShape_flatMap
+  intro it
+  apply allShape_map
+  intro g
+  split
+  · rfl
+  · split <;> rfl
+theorem sort_shape (by_ : Option Bytes) (limit : Option (Int × Int)) (gets : List Bytes) (store : Option Bytes) :
+    (cmdSort c db k by_ limit gets b b2 store).reply.replyShape = true := by
+  unfold cmdSort
+  split
+  · rfl
+  · exact sortFinish_shape db _ _ _ rfl
+  · split
+    · rfl
+    · rename_i out hint hc
+      exact sortFinish_shape db _ _ _ (sortCompute_shape c db _ _ _ _ _ _ _ _ out hint hc)
+end
+
+/-- **Every reply a command builds is a proper reply value** (no push message, no stream end mark, scalar
+    map keys), whatever the command, its arguments and the state — the premise of `down_isResp2`. -/
+theorem runCmd_reply_shape (c : Ctx) (s : State) (conn ref : Nat) (m : Bool) (cmd : Cmd) :
+    (runCmd c s conn ref m cmd).reply.replyShape = true := by
+  cases cmd
+  case copy a b rep dbOpt =>
+    simp only [runCmd]
+    split
+    · rfl
+    · exact copy_shape ..
+  case lmpop nk ks l cnt =>
+    simp only [runCmd]
+    split
+    · rfl
+    · split
+      · rfl
+      · exact lmpop_shape ..
+  case set a0 a1 a2 a3 => simp only [runCmd, onDb]; exact set_shape ..
+  case append a0 a1 => simp only [runCmd, onDb]; exact append_shape ..
+  case get a0 => simp only [runCmd, onDb]; exact get_shape ..
+  case getdel a0 => simp only [runCmd, onDb]; exact getdel_shape ..
+  case getex a0 a1 => simp only [runCmd, onDb]; exact getex_shape ..
+  case strlen a0 => simp only [runCmd, onDb]; exact strlen_shape ..
+  case getrange a0 a1 a2 => simp only [runCmd, onDb]; exact getrange_shape ..
+  case setrange a0 a1 a2 => simp only [runCmd, onDb]; exact setrange_shape ..
+  case incrby a0 a1 => simp only [runCmd, onDb]; exact incrby_shape ..
+  case decrby a0 a1 => simp only [runCmd, onDb]; exact decrby_shape ..
+  case incrbyfloat a0 a1 => simp only [runCmd, onDb]; exact incrbyfloat_shape ..
+  case mget a0 => simp only [runCmd, onDb]; exact mget_shape ..
+  case mset a0 a1 => simp only [runCmd, onDb]; exact mset_shape ..
+  case push a0 a1 a2 a3 => simp only [runCmd, onDb]; exact push_shape ..
+  case pop a0 a1 a2 => simp only [runCmd, onDb]; exact pop_shape ..
+  case llen a0 => simp only [runCmd, onDb]; exact llen_shape ..
+  case lindex a0 a1 => simp only [runCmd, onDb]; exact lindex_shape ..
+  case lrange a0 a1 a2 => simp only [runCmd, onDb]; exact lrange_shape ..
+  case lset a0 a1 a2 => simp only [runCmd, onDb]; exact lset_shape ..
+  case linsert a0 a1 a2 a3 => simp only [runCmd, onDb]; exact linsert_shape ..
+  case lrem a0 a1 a2 => simp only [runCmd, onDb]; exact lrem_shape ..
+  case ltrim a0 a1 a2 => simp only [runCmd, onDb]; exact ltrim_shape ..
+  case lpos a0 a1 a2 a3 a4 => simp only [runCmd, onDb]; exact lpos_shape ..
+  case lmove a0 a1 a2 a3 => simp only [runCmd, onDb]; exact lmove_shape ..
+  case hset a0 a1 a2 a3 => simp only [runCmd, onDb]; exact hset_shape ..
+  case hget a0 a1 => simp only [runCmd, onDb]; exact hget_shape ..
+  case hmget a0 a1 => simp only [runCmd, onDb]; exact hmget_shape ..
+  case hgetall a0 => simp only [runCmd, onDb]; exact hgetall_shape ..
+  case hkeys a0 a1 => simp only [runCmd, onDb]; exact hkeys_shape ..
+  case hlen a0 => simp only [runCmd, onDb]; exact hlen_shape ..
+  case hexists a0 a1 => simp only [runCmd, onDb]; exact hexists_shape ..
+  case hstrlen a0 a1 => simp only [runCmd, onDb]; exact hstrlen_shape ..
+  case hdel a0 a1 => simp only [runCmd, onDb]; exact hdel_shape ..
+  case hincrby a0 a1 a2 => simp only [runCmd, onDb]; exact hincrby_shape ..
+  case hincrbyfloat a0 a1 a2 => simp only [runCmd, onDb]; exact hincrbyfloat_shape ..
+  case sadd a0 a1 => simp only [runCmd, onDb]; exact sadd_shape ..
+  case srem a0 a1 => simp only [runCmd, onDb]; exact srem_shape ..
+  case scard a0 => simp only [runCmd, onDb]; exact scard_shape ..
+  case sismember a0 a1 => simp only [runCmd, onDb]; exact sismember_shape ..
+  case smismember a0 a1 => simp only [runCmd, onDb]; exact smismember_shape ..
+  case smembers a0 => simp only [runCmd, onDb]; exact smembers_shape ..
+  case smove a0 a1 a2 => simp only [runCmd, onDb]; exact smove_shape ..
+  case salg a0 a1 => simp only [runCmd, onDb]; exact setalgebra_shape ..
+  case salgStore a0 a1 a2 => simp only [runCmd, onDb]; exact setalgebrastore_shape ..
+  case sintercard a0 a1 a2 => simp only [runCmd, onDb]; exact sintercard_shape ..
+  case del a0 a1 => simp only [runCmd, onDb]; exact del_shape ..
+  case exists_ a0 => simp only [runCmd, onDb]; exact exists_shape ..
+  case touch a0 => simp only [runCmd, onDb]; exact exists_shape ..
+  case type_ a0 => simp only [runCmd, onDb]; exact type_shape ..
+  case rename a0 a1 a2 => simp only [runCmd, onDb]; exact rename_shape ..
+  case sort a0 a1 a2 a3 a4 a5 a6 => simp only [runCmd, onDb]; exact sort_shape ..
+  case persist a0 => simp only [runCmd, onDb]; exact persist_shape ..
+  case ttl a0 a1 => simp only [runCmd, onDb]; exact ttl_shape ..
+  case getbit a0 a1 => simp only [runCmd, onDb]; exact getbit_shape ..
+  case setbit a0 a1 a2 => simp only [runCmd, onDb]; exact setbit_shape ..
+  case bitcount a0 a1 => simp only [runCmd, onDb]; exact bitcount_shape ..
+  case bitpos a0 a1 a2 a3 => simp only [runCmd, onDb]; exact bitpos_shape ..
+  case bitop a0 a1 a2 => simp only [runCmd, onDb]; exact bitop_shape ..
+  case bitfield a0 a1 a2 => simp only [runCmd, onDb]; exact bitfield_shape ..
+  case expire k n u a o => simp only [runCmd, onDb]; exact expireat_shape ..
+  case bpop ks l => simp only [runCmd, onDb]; exact bpop_shape ..
+  case ping o => cases o <;> rfl
+  all_goals
+    simp only [runCmd, onDb]
+    shape
+
+
+mutual
+  theorem shape_of_resp2 : ∀ (v : Value), v.isResp2 = true → v.replyShape = true
+    | .simple _, _ | .error _, _ | .int _, _ | .bulk _, _ | .nil, _ => rfl
+    | .array xs, h => by
+      simp only [Value.isResp2] at h
+      simp only [Value.replyShape]
+      exact allShape_of_allResp2 xs h
+    | .double _, h | .bool _, h | .big _, h | .verbatim _ _, h | .blobErr _, h | .map _, h | .pairs _, h
+    | .set _, h | .attr _, h | .null, h | .push _ _, h | .endMark, h => by simp [Value.isResp2] at h
+  theorem allShape_of_allResp2 : ∀ (xs : List Value), Value.allResp2 xs = true → Value.allShape xs = true
+    | [], _ => rfl
+    | x :: xs, h => by
+      simp only [Value.allResp2, Bool.and_eq_true] at h
+      simp only [Value.allShape, shape_of_resp2 x h.1, allShape_of_allResp2 xs h.2, Bool.and_self]
+end
+
+theorem downIf_shape (resp : Int) (c : Ctx) (v : Value) (h : v.replyShape = true) : (downIf resp c v).replyShape = true := by
+  unfold downIf
+  split
+  · exact shape_of_resp2 _ (down_isResp2 v h)
+  · exact h
+
+theorem allShape_reverse (xs : List Value) (h : Value.allShape xs = true) : Value.allShape xs.reverse = true := by
+  induction xs with
+  | nil => rfl
+  | cons x r ih =>
+    simp only [Value.allShape, Bool.and_eq_true] at h
+    simp only [List.reverse_cons]
+    exact allShape_append _ _ (ih h.2) (by simp only [Value.allShape, h.1, Bool.and_self])
+
+/-- every element of EXEC's reply is a proper reply value -/
+theorem execQueue_allShape (conn : Nat) (q : List Queued) :
+    ∀ (c : Ctx) (impls : List Value) (s : State) (vs : List Value) (hs : List Match) (ps : List (Nat × Bytes × Nat)),
+      Value.allShape vs = true → Value.allShape (execQueue c conn q impls s vs hs ps).2.1 = true := by
+  induction q with
+  | nil => intro c impls s vs hs ps h; simp only [execQueue]; exact allShape_reverse vs h
+  | cons x r ih =>
+    intro c impls s vs hs ps h
+    unfold execQueue
+    split
+    · exact ih c impls s vs hs ps h
+    · split
+      · exact ih _ _ _ _ _ _ (by simp only [Value.allShape, h, Value.replyShape, Bool.and_self])
+      · split
+        · exact ih _ _ _ _ _ _ (by simp only [Value.allShape, h, errArity, Value.replyShape, Bool.and_self])
+        · dsimp only
+          split
+          · exact allShape_reverse vs h
+          · exact ih _ _ _ _ _ _ (by
+              simp only [Value.allShape, h, Bool.and_true]
+              exact downIf_shape _ _ _ (runCmd_reply_shape ..))
+
+theorem downIf_id_resp2 (resp : Int) (c : Ctx) (v : Value) (h : v.isResp2 = true) : downIf resp c v = v := by
+  unfold downIf
+  split
+  · exact down_id_on_resp2 v h
+  · rfl
+
+/-- what a connection receives is the protocol-independent reply value of the command, converted
+    according to the protocol the connection speaks when the reply is written -/
+theorem dispatchParsed_reply_form (c : Ctx) (s : State) (conn : Nat) (argv : List Bytes) (cmd : Cmd) :
+    ∃ v : Value, v.replyShape = true ∧
+      (dispatchParsed c s conn argv cmd).reply = downIf ((dispatchParsed c s conn argv cmd).st.session conn).resp c v := by
+  have plain : ∀ (st : State) (r : Value), r.isResp2 = true →
+      ∃ v : Value, v.replyShape = true ∧ r = downIf (st.session conn).resp c v :=
+    fun st r hr => ⟨r, shape_of_resp2 r hr, (downIf_id_resp2 _ c r hr).symm⟩
+  unfold dispatchParsed
+  dsimp only
+  split
+  · split
+    · exact plain _ _ rfl
+    · split
+      · exact plain _ _ rfl
+      · exact plain _ _ rfl
+      · split
+        · exact plain _ _ rfl
+        · split
+          · split <;> exact plain _ _ rfl
+          · rename_i q _ _ _ _ _
+            refine ⟨.array (execQueue c conn q (implElems c) s [] [] []).2.1, ?_, ?_⟩
+            · simp only [Value.replyShape]
+              exact execQueue_allShape conn q c _ s [] [] [] rfl
+            · dsimp only
+              split
+              · rfl
+              · rw [session_setSession]
+      · exact ⟨_, runCmd_reply_shape .., rfl⟩
+  · split
+    · exact plain _ _ rfl
+    · exact plain _ _ rfl
+    · exact plain _ _ rfl
+    · exact ⟨_, runCmd_reply_shape .., rfl⟩
+
+/-- **Under RESP2 only RESP2 types are ever emitted.** Whatever command a connection sends — inside or
+    outside MULTI, EXEC with everything it runs included — if the connection speaks RESP2 when the reply
+    is written, the reply consists of RESP2 types only (simple string, error, integer, bulk string, nil,
+    arrays of those); and it is the canonical down-conversion of the value the same command yields for a
+    RESP3 connection (`dispatchParsed_reply_form`). -/
+theorem dispatchParsed_resp2_only (c : Ctx) (s : State) (conn : Nat) (argv : List Bytes) (cmd : Cmd)
+    (h2 : ((dispatchParsed c s conn argv cmd).st.session conn).resp = 2) :
+    (dispatchParsed c s conn argv cmd).reply.isResp2 = true := by
+  obtain ⟨v, hv, hr⟩ := dispatchParsed_reply_form c s conn argv cmd
+  rw [hr, h2]
+  unfold downIf
+  simp only [beq_self_eq_true, ↓reduceIte]
+  exact down_isResp2 v hv
+
 end RedisEmu
